@@ -1,0 +1,11 @@
+//go:build verif
+
+package basestreamseeder
+
+import "sync/atomic"
+
+// VerifPendingResponsesSize exposes the amount of memory held by queued, not yet sent responses.
+// Verification-only accessor (build tag "verif"); it does not change the seeder's behaviour.
+func (s *BaseSeeder) VerifPendingResponsesSize() int64 {
+	return atomic.LoadInt64(&s.pendingResponsesSize)
+}
